@@ -64,7 +64,7 @@ func ReverseLoopOver(p ExprPred) func(c *Ctx, s ast.Stmt) bool {
 // LoopsIn lists the for/range statements of a function body (not in literals).
 func LoopsIn(f *FuncInfo) []ast.Stmt {
 	var out []ast.Stmt
-	ast.Inspect(f.Body(), func(x ast.Node) bool {
+	InspectBody(f, func(x ast.Node) bool {
 		switch s := x.(type) {
 		case *ast.FuncLit:
 			return false
